@@ -76,7 +76,12 @@ func (hs *heightSub) SetHeight(height uint64) {
 // Wait for a given height to be published.
 // It can return errElapsedHeight, which means a requested height was already seen
 // and caller should get it elsewhere.
-func (hs *heightSub) Wait(ctx context.Context, height uint64) error {
+//
+// The optional stored funcs report whether the header for the height is already available.
+// They are consulted after the waiter got registered: a header that is not contiguous with the
+// current height does not advance it, so if it got stored (and notified) between the caller's own
+// lookup and the registration, that notification is gone and nothing else would wake the waiter up.
+func (hs *heightSub) Wait(ctx context.Context, height uint64, stored ...func() bool) error {
 	if hs.Height() >= height {
 		return errElapsedHeight
 	}
@@ -99,6 +104,19 @@ func (hs *heightSub) Wait(ctx context.Context, height uint64) error {
 	}
 	sac.count++
 	hs.heightSubsLk.Unlock()
+
+	for _, isStored := range stored {
+		if !isStored() {
+			continue
+		}
+		// no need to keep the request, the header is there already
+		hs.heightSubsLk.Lock()
+		if cur, ok := hs.heightSubs[height]; ok && cur == sac {
+			hs.notify(height, false)
+		}
+		hs.heightSubsLk.Unlock()
+		return errElapsedHeight
+	}
 
 	select {
 	case <-sac.signal:
